@@ -81,7 +81,7 @@ def run_shard(desc):
             viol(["classification", detail.split(",")[0][:40] if "token " in detail else "count"], "input %r: %s" % (s, detail), list(pre_steps) + [{"op": "tokenize", "text": s}])
 
     if kind == "enum":
-        step = {"op": "enum", "alphabet": c01.ALPHABET, "minlen": 0, "maxlen": arg, "shard": si, "nshards": nshards, "join": "", "tok": True, "exec": False, "rt": False, "sample": 16, "full_upto": 3}
+        step = {"op": "enum", "alphabet": c01.ALPHABET, "minlen": 0, "maxlen": arg, "shard": si, "nshards": nshards, "join": "", "tok": True, "exec": False, "rt": False, "sample": 16 if arg <= 4 else 509, "full_upto": 3}
         recs, events, extra = common.run_batch([step], wd, "enum-%d-%d-%s" % (arg, si, profile), profile, timeout=3600, max_restarts=0)
         en = (recs[0] or {}).get("enum", {})
         part["evaluations"] += en.get("n", 0)
